@@ -150,11 +150,11 @@ class Printer(BasePrinter):
         self.print_ssa_value(operand)
 
     def _populate_block_name(
-        self, block: Block, block_index: int | None = None
+        self, block: Block, block_index: int | None = None, use_hint: bool = True
     ) -> None:
         """Assign a name to a block. The block must not already have one."""
         assert block not in self._blocks
-        if block.name_hint:
+        if use_hint and block.name_hint:
             curr_ind = self.block_names.get(block.name_hint, 0)
             suffix = f"_{curr_ind}" if curr_ind != 0 else ""
             name = f"{block.name_hint}{suffix}"
@@ -250,9 +250,19 @@ class Printer(BasePrinter):
         # printed.
         # A printer may be reused to print the same region more than once, in which
         # case the blocks already have names and must keep them.
+        # An entry block whose label is not printed does not use up its name hint, as
+        # the hint cannot be recovered when parsing the printed text.
+        if (first_block := region.blocks.first) is not None:
+            print_entry_block_args = (
+                bool(first_block.args) and print_entry_block_args
+            ) or (not first_block.ops and print_empty_block)
         for block_index, block in enumerate(region.blocks):
             if block not in self._blocks:
-                self._populate_block_name(block, block_index)
+                self._populate_block_name(
+                    block,
+                    block_index,
+                    use_hint=block_index != 0 or print_entry_block_args,
+                )
 
         # Empty region
         with self.in_braces():
@@ -260,9 +270,6 @@ class Printer(BasePrinter):
                 self._print_new_line()
                 return
 
-            print_entry_block_args = (
-                bool(entry_block.args) and print_entry_block_args
-            ) or (not entry_block.ops and print_empty_block)
             self.print_block(
                 entry_block,
                 print_block_args=print_entry_block_args,
